@@ -19,7 +19,7 @@ RULE = ("case 'rec' = (frame of 1..64 bytes with standard or extended id, 1..4 i
         "records (identifier, format, length) and the recorded scaling (Scapy scaling/offset, Canard factor/offset, FIBEX "
         "COMPU-RATIONAL-COEFFS, the CSV factor column; factors and offsets with up to 12 significant digits). In 40 % of the cases the "
         "matrix holds a second frame with signals of the same names at the same start bits (one bit wide, factor 7, value tables) and "
-        "Frames longer than 8 bytes are flagged as CAN FD. signals of the frame under test carry value tables. Non-trivial = distinct case with a signal wider than one bit.")
+        "30 % of the matrices define the launch attributes GenMsgSendType / GenMsgDelayTime (the frame has a value for none, one or both); the matrix was exported once before with the signals of the frame somewhere else. Frames longer than 8 bytes are flagged as CAN FD. signals of the frame under test carry value tables. Non-trivial = distinct case with a signal wider than one bit.")
 PARTIAL = ["the target tools are not installed: their reading conventions are the trusted Spec/Exports.lean",
            "FIBEX dynamic/static segment positions of multiplexed PDUs are not compared; compared are SIGNAL-INSTANCE and SWITCH "
            "position/byte order, CODING bit length and base data type (signedness), frame length and identifier",
@@ -67,6 +67,14 @@ def build(fd, arbid, ext):
         db.add_frame(dec)
     db.add_frame(fr)
     db.add_ecu(cm.Ecu("E1"))
+    if fd.get("launch"):
+        # the matrix defines the launch type / launch parameter attributes; the frame has a value for neither, one or both
+        db.add_frame_defines("GenMsgSendType", 'ENUM "cyclic","spontaneous"')
+        db.add_frame_defines("GenMsgDelayTime", "INT 0 1000")
+        if fd["launch"] in ("type", "both"):
+            fr.add_attribute("GenMsgSendType", "cyclic")
+        if fd["launch"] == "both":
+            fr.add_attribute("GenMsgDelayTime", "10")
     return db
 
 
@@ -82,6 +90,16 @@ def records(fd, arbid, ext):
     if key in _cache:
         return _cache[key]
     db = build(fd, arbid, ext)
+    # the matrix was exported before, with the signals of the frame somewhere else; they were moved into place by assignment
+    # afterwards (an export describes the matrix as it is now)
+    fr0 = db.frame_by_name("Fr")
+    if fr0 is not None:
+        with F.edited_in_place(fr0):
+            for fmt0, o0 in (("scapy", {}), ("wireshark", {}), ("fibex", {}), ("csv", {}), ("json", {"jsonExportCanard": True})):
+                try:
+                    export(db, fmt0, **o0)
+                except Exception:  # noqa
+                    pass
     out = {"sig": {}, "frame": {}}
     names = [d[0] for d in fd["sigs"]]
     for n in names:
@@ -225,6 +243,8 @@ def gen_frame(rng):
     fd["sigs"] = keep
     if rng.random() < 0.4:
         fd["decoy"] = rng.choice(["below", "above", "otherfmt"])
+    if rng.random() < 0.3:
+        fd["launch"] = rng.choice(["none", "type", "both"])
     if rng.random() < 0.4:
         for d in fd["sigs"]:
             if not d[5] and not d[6] and rng.random() < 0.7:
